@@ -185,6 +185,17 @@ impl Property for C16 {
                 // input class for the known-findings matcher: an operand exactly at a pole
                 let at_pole = if c.a.1.abs() == 90.0 || c.b.1.abs() == 90.0 { "|at-pole" } else { "" };
                 o.expect((0.0..360.0).contains(&th), &format!("{n}|bearing-out-of-range{at_pole}"), || format!("{th}; {}", ctx()));
+                // nothing in the stated domain (the poles included) may produce a coordinate that is not a number: travelling
+                // from a, the ratio point of (a, b), and the trip bearing(a,b) x distance(a,b) that should arrive at b
+                let fin = |p: Point<f64>| p.x().is_finite() && p.y().is_finite();
+                let m_any = (sp.ratio)(a, b, c.ratio);
+                o.expect(fin(m_any), &format!("{n}|ratio-point-not-finite{at_pole}"), || format!("{:?}; {}", m_any, ctx()));
+                let d_any = (sp.dest)(a, c.bearing, c.dist.abs().min(5.0e6));
+                o.expect(fin(d_any), &format!("{n}|destination-not-finite{at_pole}"), || format!("destination(a, {}, {}) = {:?}; {}", c.bearing, c.dist.abs().min(5.0e6), d_any, ctx()));
+                if th.is_finite() && d.is_finite() {
+                    let d_rt = (sp.dest)(a, th, d);
+                    o.expect(fin(d_rt), &format!("{n}|destination-not-finite{at_pole}"), || format!("destination(a, {th}, {d}) = {:?}; {}", d_rt, ctx()));
+                }
                 let tol = 1e-3 + 1e-9 * d;
                 let well_here = well && rhumb_ok;
                 if well_here {
